@@ -1212,8 +1212,20 @@ func (s *sim) localTx(n *nodeSim, subs []SubOp, step int, refuse bool) error {
 	var desc []string
 	for _, so := range subs {
 		k := keyName(so.K % s.sc.Keys)
-		if seen[k] {
+		if seen[k] && !so.Again {
 			continue
+		}
+		if seen[k] {
+			// the transaction touches the key again: the earlier operation is superseded
+			// inside the transaction and only this one is expected to surface
+			kept := wants[:0]
+			for _, w := range wants {
+				if w.key != k {
+					kept = append(kept, w)
+				}
+			}
+			wants = kept
+			s.rep.Class("tx-touches-a-key-twice")
 		}
 		seen[k] = true
 		st, err := readStored(s.ctx, n.engine, k)
@@ -1353,9 +1365,18 @@ func (s *sim) localTx(n *nodeSim, subs []SubOp, step int, refuse bool) error {
 			// a version that does not exceed one this leaseholder issued before, the leaseholder
 			// numbered it at or below its own earlier operations - its gossip store and every
 			// peer drop it as stale and the replicas diverge.
-			if st, rerr := readStored(s.ctx, at.engine, w.key); rerr == nil && st.HasDig && st.ID.LH == int(at.key) &&
+			st, rerr := readStored(s.ctx, at.engine, w.key)
+			if rerr == nil && st.HasDig && st.ID.LH == int(at.key) &&
 				st.ID.Ver <= at.issued && st.Del == w.del && (w.del || (st.HasVal && st.Val == w.val)) {
 				return s.violate("leaseholder-issued-non-increasing-version", "step %d: the committed write of %s on %s is stored as %s although %s had already issued version %d: versions issued by one leaseholder must increase (the operation never became a new one in its gossip store)", step, w.key, at.label(), st, at.label(), at.issued)
+			}
+			// ... or the engine holds the write while the leaseholder's own gossip store holds a
+			// newer operation of the same leaseholder on that key: the engine is behind what the
+			// node tells its peers (operations of one transaction numbered against their order)
+			if inf, _, perr := s.probe(at); perr == nil && rerr == nil && st.HasDig && st.ID.LH == int(at.key) {
+				if o, ok := inf[w.key]; ok && o.ID.LH == int(at.key) && o.ID.Ver > st.ID.Ver {
+					return s.violate("leaseholder-engine-behind-its-own-gossip-store", "step %d: after the committed transaction %s holds %s for %s in its engine but gossips %s, a newer operation of its own on that key", step, at.label(), st, w.key, o)
+				}
 			}
 		}
 		if err != nil {
